@@ -5,13 +5,16 @@
 cd /verif
 claimed=$(python3 -c "
 import json;print(' '.join(c['property_id'] for c in json.load(open('/verif/MANIFEST.json'))['checks']))")
-ids="$@"; [ -z "$ids" ] && ids=$(ls seeded | grep -E '^C[0-9]+-[0-9]+$')
+ids="$@"; [ -z "$ids" ] && ids=$(ls seeded | grep -E '^C[0-9]+-[0-9]+r?$')
 run_one() {
   id=$1; prop=${id%%-*}
   if ! echo " $claimed " | grep -q " $prop "; then echo "NOT-CLAIMED $prop $id"; return; fi
+  if python3 -c "import json,sys;sys.exit(0 if json.load(open('/verif/seeded/$id/meta.json')).get('status')=='obsolete' else 1)" 2>/dev/null; then
+    echo "OBSOLETE $prop $id: $(python3 -c "import json;print(json.load(open('/verif/seeded/$id/meta.json')).get('obsolete_reason',''))")"; return
+  fi
   tools/mutant.sh seeded/$id/patch.diff $prop 2>&1 | tail -1 | sed "s/patch.diff/$id/"
 }
 export -f run_one; export claimed
-printf '%s\n' $ids | xargs -P4 -I{} bash -c 'run_one {}' | sort -k2,3 > /tmp/matrix.$$ 
+printf '%s\n' $ids | xargs -P${SEED_PAR:-4} -I{} bash -c 'run_one {}' | sort -k2,3 > /tmp/matrix.$$ 
 mv /tmp/matrix.$$ seeded/MATRIX.txt
 cat seeded/MATRIX.txt | cut -c1-260
